@@ -470,6 +470,7 @@ def check_genpoints(run, plugin_outputs):
                   "correspondence": "_gen_func_ref vs funcRefCandidates / sigtypeCompatible"}
             report(dict(rp, kind="broken-correspondence"), "gen_func_ref:model-differs", True)
     check_gennew(run, plugin_outputs, report)
+    check_matching(run, plugin_outputs, report, extra)
 
 
 def check_gennew(run, plugin_outputs, report):
@@ -515,6 +516,54 @@ def check_gennew(run, plugin_outputs, report):
         if not r["ok"]:
             report({"kind": "broken-correspondence", "replay": replay_key(sp), "call": c, "model": r,
                     "tt": pl["gp_tt"], "correspondence": "gen_new vs genNewPlan"}, "gen_new:model-differs", True)
+
+
+def check_matching(run, plugin_outputs, report, extra):
+    """3. the matching family: `_get_matching_class_decls` exactly (given the unifier maps), the draw of
+    `_get_matching_class` among them, the first fitting attribute of `_gen_matching_class`, and for every
+    (attribute, maps) RETURNED by `_get_matching_objects`, `_get_matching_function_declarations`,
+    `_get_matching_class` the condition the callers rely on (`matchedOK` = the model of the code's own
+    `_is_sigtype_compatible`, under the maps as returned, after the random instantiations)"""
+    for sp, pl, c, r in _gp_batches(plugin_outputs, "mcd", "check.classdecls", extra):
+        run.tally("get_matching_class_decls_calls", "%s:%s:%s:%s" % (
+            c["attr_name"], "signature" if c["sig"] else ("subtype" if c["sub"] else "exact"),
+            "some" if c["out"] else "empty", "agree" if r["ok"] else "DIFFER"))
+        run.cov["traces_validated_against_impl"] += 1
+        if not r["ok"]:
+            report({"kind": "broken-correspondence", "replay": replay_key(sp), "call": c, "model": r,
+                    "tt": pl["gp_tt"], "correspondence": "_get_matching_class_decls vs matchingClassDecls"},
+                   "get_matching_class_decls:model-differs", True)
+    for sp, pl in plugin_outputs:
+        if not pl or "error" in pl:
+            continue
+        for c in pl.get("gp", {}).get("mcls", []):
+            ok = (c["out"] is None and not c["cands"]) or (c["out"] is not None and c["out"] in c["cands"])
+            run.tally("get_matching_class_calls", "%s:%s:%s" % (
+                c["attr_name"], "none" if c["out"] is None else "drawn", "refines" if ok else "DIFFERS"))
+            if not ok:
+                report({"kind": "broken-correspondence", "replay": replay_key(sp), "call": c,
+                        "correspondence": "_get_matching_class draws from _get_matching_class_decls"},
+                       "get_matching_class:model-differs", True)
+    for sp, pl, c, r in _gp_batches(plugin_outputs, "gmc", "check.firstcompat"):
+        run.tally("gen_matching_class_calls", "%s:%s:%s" % (
+            c["attr_name"], "signature" if c["sig"] else "type", "agree" if r["ok"] else "DIFFER"))
+        run.cov["traces_validated_against_impl"] += 1
+        if not r["ok"]:
+            report({"kind": "broken-correspondence", "replay": replay_key(sp), "call": c, "model": r,
+                    "tt": pl["gp_tt"], "correspondence": "_gen_matching_class vs firstCompatible"},
+                   "gen_matching_class:model-differs", True)
+    for sp, pl, c, r in _gp_batches(plugin_outputs, "post", "check.sigcompat", extra):
+        run.tally("returned_attribute_fits", "%s:%s:%s" % (
+            c["src"], "signature" if c["sig"] else ("subtype" if c["sub"] else "exact"),
+            "fits" if r is True else "DOES-NOT-FIT(%s)" % r))
+        run.cov["traces_validated_against_impl"] += 1
+        if r is not True:
+            # the maps returned do not make the attribute usable at the expected type: judge the substituted type
+            # with the specification-side decider before calling it a failing input
+            rp = {"replay": replay_key(sp), "call": c, "model": r, "tt": pl["gp_tt"],
+                  "what": "%s returned an attribute whose type under the returned maps does not pass "
+                          "_is_sigtype_compatible" % c["src"]}
+            report(dict(rp, kind="failing-input"), "matching:returned-attribute-does-not-fit:" + c["src"], False)
 
 
 def check_folds(run, plugin_outputs):
